@@ -133,33 +133,58 @@ def run(ck, F, tier):
 
     # ---- Q2 ---------------------------------------------------------------------------------------
     b, t, ret, calls = trace(F, MN + "select_rows", ["self"])
-    # Random policy: filter closure r -> row_weight(r) < wr ; Uniform: filter_map w < self.wr
-    fl = [c for c in walk(b.value) if c.get("k") == "closure"]
+    # both policies filter rows by a closure whose predicate, evaluated in the environment of its call site, must be
+    # row_weight(self.h, r) < self.wr (strict). Name-independent: locals are resolved to what they were bound to.
+    tf = Tracer(F, r"std::iter::Iterator::(filter|filter_map)", mode="int")
+    envf = {}
+    tf.bind(b.params[0], var("self"), envf)
+    # Tracer turns filter/filter_map into iterator descriptions; collect the closures from the descriptions of the consumers
     preds = []
-    tr0 = Tracer(F, "NONE")
-    env0 = {b.params[0]["name"]: var("self")}
-    for c in fl:
-        try:
-            v = tr0.apply(("closure", c, {"h#": None, **env0}), [var("r")])
-        except Unsupported:
-            continue
-        preds.append(repr(v))
-    strict = [p for p in preds if "lt(" in p and "row_weight" in p and ("self.wr" in p or "wr" in p)]
-    loose = [p for p in preds if "le(" in p and "row_weight" in p]
-    rw = by_name(calls, "row_weight")
-    ck.inst("Q2", "select_rows:weight-filter", len(rw) == 2 and not loose and all(single_atom(s["vals"][0]) is not None for s in rw), b.span,
-            "both fill policies test row_weight(r) (%d sites) strictly against the configured wr" % len(rw))
-    # verify strictness from the sites' enclosing comparison: find bin nodes comparing row_weight result
-    cmps = []
-    for n in walk(b.value):
-        if n.get("k") == "bin" and n.get("op") in ("Lt", "Le", "Gt", "Ge", "Eq", "Ne"):
-            s = repr([callee(x) for x in walk(n) if x.get("k") == "mcall"])
-            txt = [x.get("m") for x in walk(n["l"]) if x.get("k") == "mcall"] + [access_path(n["l"]) and access_path(n["l"])[-1]]
-            rtxt = access_path(n["r"])
-            lw = any(x.get("k") == "mcall" and x["m"] == "row_weight" for x in walk(n["l"])) or (access_path(n["l"]) or ("",))[-1].startswith("w#")
-            if lw and rtxt and rtxt[-1].split("#")[0] == "wr":
-                cmps.append(n["op"])
-    ck.inst("Q2", "select_rows:strict-less-than", cmps == ["Lt", "Lt"], b.span, "row weight comparisons against wr: %s (required `<` twice)" % cmps)
+
+    def closures_of(d):
+        out = []
+        if isinstance(d, tuple):
+            if d and d[0] in ("filter", "filter_map") and len(d) > 2 and isinstance(d[2], tuple) and d[2] and d[2][0] == "closure":
+                out.append(d[2])
+            for x in d:
+                out += closures_of(x)
+        return out
+    seen_cl = set()
+
+    class T2(Tracer):
+        def e_mcall(self_, n, env):
+            v = Tracer.e_mcall(self_, n, env)
+            if isinstance(v, tuple) and v and v[0] == "iterdesc":
+                for c in closures_of(v[1]):
+                    if id(c[1]) not in seen_cl:
+                        seen_cl.add(id(c[1]))
+                        try:
+                            preds.append((self_.apply(c, [var("r")]), c[1].get("sp")))
+                        except Unsupported:
+                            pass
+            return v
+    t2 = T2(F, "NONE", mode="int")
+    env2 = {}
+    t2.bind(b.params[0], var("self"), env2)
+    t2.eval(b.value, env2)
+    RW = app(SM + "row_weight", var("self.h"), var("r"))
+    WR = var("self.wr")
+    strict = []
+    for v, sp in preds:
+        a = single_atom(v) if isinstance(v, Poly) else None
+        # Random: the predicate itself; Uniform: if w < wr { Some((r, w)) } else { None }
+        c = None
+        if a and atom_fn(a) == "lt":
+            c = a
+        elif a and atom_fn(a) == "ite":
+            c = single_atom(atom_args(a)[0])
+        if c is not None and atom_fn(c) in ("lt", "le"):
+            x, y = atom_args(c)
+            strict.append((atom_fn(c), x == RW and y == WR, sp))
+    ck.inst("Q2", "select_rows:weight-filter", len(strict) == 2 and all(okp for _, okp, _ in strict), b.span,
+            "both fill policies keep row r only under a comparison of row_weight(h, r) with the configured wr (%d filter predicates read)" % len(strict))
+    ck.inst("Q2", "select_rows:strict-less-than", [o for o, _, _ in strict] == ["lt", "lt"], b.span,
+            "row weight comparisons against wr: %s (required `<` twice)" % [o for o, _, _ in strict])
     cm = by_name(calls, "choose_multiple")
     srs = by_name(calls, "sort_by_random_sel")
     ok = len(cm) == 1 and cm[0]["vals"][1:] == [var("self.rng"), var("self.wc")] and len(srs) == 1 and srs[0]["vals"][1] == var("self.wc") and srs[0]["vals"][3] == var("self.rng")
